@@ -6,8 +6,11 @@ mod core;
 mod enc;
 mod fixtures;
 mod gen_circuit;
+mod opcirc;
+mod ops;
 mod pipeline;
 mod props;
+mod repair;
 mod stdfix;
 mod tracing_t;
 mod util;
